@@ -19,6 +19,7 @@ fn main() {
         match kind {
             "planner" => reserve_gen::planner_case(&mut case_rng, i, &mut inp, &mut out),
             "journal" => reserve_gen::journal_case(&mut case_rng, i, &mut inp, &mut out),
+            "rule" => reserve_gen::rule_case(&mut case_rng, i, &mut inp, &mut out),
             "e2e" => reserve_e2e::e2e_case(&mut case_rng, i, &mut inp, &mut out),
             k => panic!("unknown kind {k}"),
         }
